@@ -728,9 +728,9 @@ def descr_traj(c):
 FAMILIES = [
     Family('dcf_1d', gen_1d, impl_1d, coq_1d, PRE, cmp_1d, oracle_1d, nontrivial=lambda c: len(set(c['x'])) >= 2,
            descr=lambda c: {'kind': c['kind']},
-           theorem='C16_1d_code_eq_weight, C16_1d_positive, C16_1d_weight_perm, C16_1d_permutation, C16_1d_scaling, C16_1d_translation, C16_1d_split, C16_1d_interior'),
+           theorem='C16_1d_code_eq_weight, C16_1d_positive, C16_1d_weight_perm, C16_1d_permutation, C16_1d_scaling, C16_1d_translation, C16_1d_split, C16_1d_interior, C16_1d_sorted_code, C16_1d_interior_sum'),
     Family('dcf_2d', gen_2d, impl_2d, coq_2d, PRE, cmp_2d, oracle_2d, nontrivial=nontrivial_2d, descr=lambda c: {'kind': c['kind']},
-           shard=3, theorem='C16_2d_polygon_in_cell_partial, C16_2d_polygon_in_box, C16_2d_cell_in_start_box, C16_shoelace_*, C16_cell2_*'),
+           shard=3, theorem='C16_2d_polygon_in_cell_partial, C16_2d_polygon_in_box, C16_2d_cell_in_start_box, C16_2d_clip_area_additive, C16_2d_cell_dissection, C16_2d_discarded_far, C16_outlier_*, C16_shoelace_*, C16_cell2_*'),
     Family('dcf_3d', gen_3d, impl_3d, None, '', None, oracle_3d, descr=lambda c: {'kind': c['kind']}, theorem='(implementation-level)'),
     Family('from_traj_voronoi', gen_traj, impl_traj, coq_traj, PRE, cmp_traj, oracle_traj, descr=descr_traj, shard=2,
            theorem='C16_product_cell, C16_from_traj_decomposition_refuted'),
